@@ -65,7 +65,15 @@ def x_hist(ctx, case):
     top = testtools.ExtendedToStreamDecorator(
         testtools.CopyStreamResult([sink, testtools.StreamToExtendedDecorator(far)]))
     detail = lambda: {"history": history}  # noqa: E731
-    H.drive(top, history, details_fn=details_fn)
+    try:
+        H.drive(top, history, details_fn=details_fn)
+        crashed = None
+    except Exception:
+        import traceback
+        crashed = traceback.format_exc(limit=6)
+    ctx.check(crashed is None, "conversion.accepts-well-formed-history", lambda: {"error": crashed, **detail()})
+    if crashed:
+        return True
     # ---- model of what the reporter knew ----------------------------------------------------
     tests = []
     now, run_tags, cur = None, set(), None
